@@ -179,4 +179,82 @@ theorem addProps_spec (n : Nat) (props : List (PropArr α)) :
     rw [ih _ _ (fun q hq => hwf q (List.mem_cons_of_mem _ hq)) hnd2]
     simp [List.flatMap_cons, List.append_assoc]
 
+/-! ### totality: a well-formed geff never raises, name collisions included -/
+
+theorem addCols2_total (p : PropArr α) (n L : Nat) (hwf : p.WF n) (hL : prodNat p.trail = L) :
+    ∀ (cnt i : Nat) (d : Dict α), i + cnt ≤ L → ∃ d', addCols2 p i cnt d = .ok d' := by
+  intro cnt
+  induction cnt with
+  | zero => intro i d _; exact ⟨d, rfl⟩
+  | succ cnt ih =>
+    intro i d hle
+    have hj : ∀ row ∈ p.rows, i < row.length := by
+      intro row hr; rw [hwf.row_len row hr, hL]; omega
+    obtain ⟨col, hc, hs⟩ := mkSeries_spec i n p.rows p.missing hwf.rows_len hj hwf.missing_len
+    obtain ⟨d', hd'⟩ := ih (i + 1) (dictSet d (subName p.name i) (specCells i p.rows (maskOf p.missing n))) (by omega)
+    exact ⟨d', by simp only [addCols2, hc, hs, hd']⟩
+
+theorem addProp_total (p : PropArr α) (n : Nat) (hwf : p.WF n) (acc : Dict α × List Warning) :
+    ∃ acc', addProp acc p = .ok acc' := by
+  have hprod := prodNat_squeeze p.trail
+  cases hsq : squeezeTrail p.trail with
+  | nil =>
+    rw [hsq] at hprod
+    have hj : ∀ row ∈ p.rows, 0 < row.length := by
+      intro row hr; rw [hwf.row_len row hr, ← hprod]; simp [prodNat]
+    obtain ⟨col, hc, hs⟩ := mkSeries_spec 0 n p.rows p.missing hwf.rows_len hj hwf.missing_len
+    exact ⟨_, by simp only [addProp, hsq, hc, hs]; rfl⟩
+  | cons k rest =>
+    cases rest with
+    | nil =>
+      rw [hsq] at hprod
+      have hL : prodNat p.trail = k := by rw [← hprod]; simp [prodNat]
+      obtain ⟨d', hd'⟩ := addCols2_total p n k hwf hL k 0 acc.1 (by omega)
+      exact ⟨_, by simp only [addProp, hsq, hd']; rfl⟩
+    | cons k2 rest2 => exact ⟨_, by simp only [addProp, hsq]; rfl⟩
+
+theorem addProps_total (n : Nat) (props : List (PropArr α)) :
+    ∀ (acc : Dict α × List Warning), (∀ p ∈ props, p.WF n) → ∃ acc', addProps acc props = .ok acc' := by
+  induction props with
+  | nil => intro acc _; exact ⟨acc, rfl⟩
+  | cons p ps ih =>
+    intro acc hwf
+    obtain ⟨acc1, h1⟩ := addProp_total p n (hwf p (List.mem_cons_self ..)) acc
+    obtain ⟨acc2, h2⟩ := ih acc1 (fun q hq => hwf q (List.mem_cons_of_mem _ hq))
+    exact ⟨acc2, by simp only [addProps, h1, h2]⟩
+
+/-! ### the file-level model of `geff_to_csv` -/
+
+theorem fsGet_fsSet_same (fs : FS) (path content : String) : fsGet (fsSet fs path content) path = some content := by
+  induction fs with
+  | nil => simp [fsSet, fsGet]
+  | cons e rest ih =>
+    unfold fsSet
+    by_cases h : e.1 = path
+    · simp [h, fsGet]
+    · simp [h, fsGet, ih]
+
+theorem fsGet_fsSet_other (fs : FS) (path content q : String) (hq : q ≠ path) :
+    fsGet (fsSet fs path content) q = fsGet fs q := by
+  induction fs with
+  | nil => simp [fsSet, fsGet, Ne.symm hq]
+  | cons e rest ih =>
+    unfold fsSet
+    by_cases h : e.1 = path
+    · have : e.1 ≠ q := by rw [h]; exact Ne.symm hq
+      simp [h, fsGet, Ne.symm hq]
+    · by_cases h2 : e.1 = q
+      · simp [h, fsGet]; simp [h2]
+      · simp [h, fsGet, h2, ih]
+
+/-- without `overwrite`, `to_csv` leaves every existing file as it is -/
+theorem toCsv_keeps (fs : FS) (path content : String) (q c : String) (hq : fsGet fs q = some c) :
+    fsGet (toCsv fs path content false).2 q = some c := by
+  unfold toCsv
+  by_cases hex : (fsGet fs path).isSome = true
+  · simp [hex, hq]
+  · have hne : q ≠ path := by
+      rintro rfl; rw [hq] at hex; simp at hex
+    simp [hex, fsGet_fsSet_other fs path content q hne, hq]
+
 end Geff.Dataframe
